@@ -947,6 +947,10 @@ func (c *fctx) callExpr(x *ast.CallExpr) (lx, error) {
 		}
 		return lx{s: term, t: rt}, nil
 	}
+	if _, ok := c.g.fns[q]; !ok && sig.Recv() == nil {
+		// a helper of the package without configuration: translated on demand
+		c.autoFn(q, fn)
+	}
 	if f, ok := c.g.fns[q]; ok && !f.needsState() && len(f.callbacks) == 0 {
 		// a translated function without receiver state / pointer params can be used in an expression
 		if sig.Recv() == nil || !isPtr(sig.Recv().Type()) {
